@@ -65,7 +65,7 @@ REQUIRED = dict(
              'ndim:1', 'ndim:2', 'error:yes', 'error:no', 'native-order:shuffled', 'target-order:shuffled',
              'call:2d-with-error', 'route:bin_model', 'route:forward-model', 'same-binner:narrower-widths',
              'same-binner:derived-widths', 'same-binner:other-grid-same-length', 'same-binner:first-again',
-             'same-binner:other-spacing-same-ends-new-binner'])
+             'same-binner:other-spacing-same-ends-new-binner', 'target:integer-centres'])
 EPS = float(np.finfo(float).eps)
 RTOL = 1e-12
 
@@ -510,6 +510,10 @@ def gen_target(rng, nlo, nhi, nw, whole=None):
     if whole == 'scalar':
         K = int(rng.integers(1, 25))
         c = np.sort(rng.uniform(L - 0.1 * span, H + 0.1 * span, K))
+        if rng.random() < 0.35 and span > 4 * K:
+            # whole-number centres handed over as an INTEGER array (np.arange(...)), one fractional width for all bins
+            c = np.unique(np.round(c).astype(np.int64))
+            return c, float(max(span / len(c) * rng.uniform(0.1, 2.5), 0.3)) + 0.5, ['scalar', 'integer-centres']
         return c, float(span / K * rng.uniform(0.1, 2.5)), ['scalar']
     kinds = [str(k) for k in rng.choice(['nested', 'wide', 'narrow', 'overlapping', 'gaps', 'partly-outside', 'outside'],
                                         int(rng.integers(1, 4)), replace=False)]
